@@ -111,6 +111,11 @@ pub struct DelegCase {
     /// body must still be what runs (no clause says applies_unmocked(); an unmentioned provided method runs its body)
     #[serde(default)]
     pub provided_has_real_fn: bool,
+    /// 1: the trait declares `const K: u32;`, the attribute supplies `const K: u32 = 10;`; 2: the trait declares
+    /// `const K: u32 = 1;` and the attribute overrides it with 10. The default body adds `Self::K` to its result:
+    /// inside the body `Self` must see the same constant as `<Unimock as Tr>::K` (10)
+    #[serde(default)]
+    pub assoc_const: u8,
 }
 
 /// response of required method m for argument x (a known function, so results can be predicted)
@@ -152,7 +157,7 @@ impl DelegCase {
                         calls.push((*m, x));
                         vs.push(required_result(*m, x));
                     }
-                    results.push(self.body.result.eval(*a, *b, &vs));
+                    results.push(self.body.result.eval(*a, *b, &vs).wrapping_add(if self.assoc_const % 3 > 0 { 10 } else { 0 }));
                 }
             }
         }
@@ -200,7 +205,11 @@ fn body_source(c: &DelegCase) -> String {
             e.print()
         ));
     }
-    s.push_str(&format!("        {}\n", c.body.result.print()));
+    if c.assoc_const % 3 > 0 {
+        s.push_str(&format!("        ({}).wrapping_add(Self::K)\n", c.body.result.print()));
+    } else {
+        s.push_str(&format!("        {}\n", c.body.result.print()));
+    }
     s
 }
 
@@ -226,14 +235,19 @@ pub fn source(c: &DelegCase) -> String {
     } else {
         rd
     };
+    let (const_attr, const_decl) = match c.assoc_const % 3 {
+        1 => (", const K: u32 = 10;", "    const K: u32;\n"),
+        2 => (", const K: u32 = 10;", "    const K: u32 = 1;\n"),
+        _ => ("", ""),
+    };
     let attr = if c.provided_has_real_fn {
         s.push_str("pub fn real_d(a: u32, b: u32) -> u32 {\n    log(format!(\"REAL-FUNCTION-OF-d:{a}:{b}\"));\n    777_000_000 + a + b\n}\n\n");
-        "#[unimock(api=M, unmock_with=[_, _, real_d(a, b)])]"
+        format!("#[unimock(api=M, unmock_with=[_, _, real_d(a, b)]{const_attr})]")
     } else {
-        "#[unimock(api=M)]"
+        format!("#[unimock(api=M{const_attr})]")
     };
     s.push_str(&format!(
-        "{attr}\npub trait Tr{sized} {{\n    fn r0({rd_req}, x: u32) -> u32;\n    fn r1({rd_req}, x: u32) -> u32;\n    fn d{dgen}({rd}, a: u32, b: u32{dparam}) -> u32 {{\n{}    }}\n}}\n\n",
+        "{attr}\npub trait Tr{sized} {{\n{const_decl}    fn r0({rd_req}, x: u32) -> u32;\n    fn r1({rd_req}, x: u32) -> u32;\n    fn d{dgen}({rd}, a: u32, b: u32{dparam}) -> u32 {{\n{}    }}\n}}\n\n",
         body_source(c)
     ));
     s.push_str("pub fn run() -> String {\n");
@@ -407,6 +421,8 @@ pub fn judge(c: &DelegCase, line: &str) -> Result<CaseInfo, String> {
     .class_if(c.partial, "partial-mock")
     .class_if(c.generic_method, "provided-method-has-a-type-parameter")
     .class_if(c.provided_has_real_fn, "provided-method-also-has-a-real-function")
+    .class_if(c.assoc_const % 3 == 1, "body-reads-an-associated-const-supplied-by-the-attribute")
+    .class_if(c.assoc_const % 3 == 2, "body-reads-an-associated-const-whose-trait-default-the-attribute-overrides")
     .class_if(c.catch_all_default && c.explicit_default_impl && !c.ordered && c.default_body_calls().is_none(), "catch-all-applies_default_impl-after-a-specific-clause")
     .class_if(c.ordered, "required:ordered")
     .class_if(!c.ordered, "required:unordered")
@@ -464,9 +480,9 @@ pub fn case_strategy() -> impl Strategy<Value = DelegCase> {
         any::<bool>(),
         proptest::bool::weighted(0.4),
         any::<bool>(),
-        (prop_oneof![2 => Just(0u8), 1 => 1..8u8], proptest::bool::weighted(0.3), proptest::bool::weighted(0.3), proptest::bool::weighted(0.3)),
+        (prop_oneof![2 => Just(0u8), 1 => 1..8u8], proptest::bool::weighted(0.3), proptest::bool::weighted(0.3), proptest::bool::weighted(0.3), prop_oneof![2 => Just(0u8), 1 => Just(1u8), 1 => Just(2u8)]),
     )
-        .prop_map(|(recv, mut body, mut history, ordered, explicit_default_impl, partial, later_answering_clause, (then_answer_after, generic_method, catch_all_default, provided_has_real_fn))| {
+        .prop_map(|(recv, mut body, mut history, ordered, explicit_default_impl, partial, later_answering_clause, (then_answer_after, generic_method, catch_all_default, provided_has_real_fn, assoc_const))| {
             if recv == Recv::Value {
                 // a by-value receiver is consumed by the first call it is passed to
                 body.calls.truncate(1);
@@ -475,7 +491,7 @@ pub fn case_strategy() -> impl Strategy<Value = DelegCase> {
                 }
                 history.truncate(1);
             }
-            DelegCase { recv, body, history, ordered, explicit_default_impl, partial, later_answering_clause, then_answer_after, generic_method, catch_all_default, provided_has_real_fn }
+            DelegCase { recv, body, history, ordered, explicit_default_impl, partial, later_answering_clause, then_answer_after, generic_method, catch_all_default, provided_has_real_fn, assoc_const }
         })
 }
 
